@@ -36,7 +36,7 @@ RULE = ('directed histories (the design probes p5, p23 and their variants) + ran
         'fresh objects, and leaf assignments on attached and detached objects (same and different values).  After every step '
         'the invocation log (with the values read) and the watcher tables and dynamic_watchers of all objects are compared with '
         'the model and judged by the oracle.  non-trivial = a method fired at least once and >=3 steps judged')
-COVERAGE_TARGETS = ['leaf:object', 'step:update', 'step:batch', 'step:method-raised', 'depth:1', 'depth:2', 'depth:3', 'deps:one', 'deps:several', 'leaf:param', 'fired',
+COVERAGE_TARGETS = ['step:discard', 'step:batch-repeated-key', 'decl:inherited', 'decl:own', 'objects:falsy', 'leaf:object', 'step:update', 'step:batch', 'step:method-raised', 'depth:1', 'depth:2', 'depth:3', 'deps:one', 'deps:several', 'leaf:param', 'fired',
                     'step:attach', 'step:replace', 'step:detach', 'step:leaf-attached', 'step:leaf-detached', 'step:replace-equal']
 
 LOG = []
@@ -111,9 +111,23 @@ def run_impl(case):
                 ns[p] = param.ClassSelector(class_=param.Parameterized, default=None, allow_None=True)
             for p in c['intParams']:
                 ns[p] = param.Number(default=0)
-            for m in c['methods']:
-                ns[m['name']] = _mk_method(param, m['name'], m['specs'], ids, tuple(m.get('raises', ())))
-            K.append(type(f'C{k}', (param.Parameterized,), ns))
+            if c.get('falsy'):
+                # a container-like class that is empty: instances are falsy (`bool(obj) is False`)
+                ns['__len__'] = lambda self: 0
+            meths = {m['name']: _mk_method(param, m['name'], m['specs'], ids, tuple(m.get('raises', ())))
+                     for m in c['methods']}
+            nbase = c.get('nbase', 0)
+            if nbase:
+                # the first `nbase` methods are declared on a base class and only INHERITED by the class the
+                # objects are made from (`_depends['watch']` lists inherited entries first: same order)
+                ns.update({m['name']: meths[m['name']] for m in c['methods'][:nbase]})
+                base = type(f'B{k}', (param.Parameterized,), ns)
+                sub = {m['name']: meths[m['name']] for m in c['methods'][nbase:]}
+                sub['extra'] = param.Number(default=0)
+                K.append(type(f'C{k}', (base,), sub))
+            else:
+                ns.update(meths)
+                K.append(type(f'C{k}', (param.Parameterized,), ns))
         objs = []
         COUNT.clear()
         case = dict(case, _cls_of=[])
@@ -132,13 +146,18 @@ def run_impl(case):
                     case['_cls_of'].append(st['cls'])
                 elif st['op'] == 'update':
                     tgt = objs[st['o']]
-                    kw = {k: _jval(v, objs) for k, v in st['kvs']}
+                    kvs = [(k, _jval(v, objs)) for k, v in st['kvs']]
                     if st.get('via') == 'batch':
                         with param.parameterized.batch_call_watchers(tgt):
-                            for k, v in kw.items():
+                            for k, v in kvs:          # a key may repeat
                                 setattr(tgt, k, v)
                     else:
-                        tgt.param.update(**kw)
+                        tgt.param.update(**dict(kvs))
+                elif st['op'] == 'discard':
+                    tgt = objs[st['o']]
+                    with param.parameterized.discard_events(tgt):
+                        for k, v in st['kvs']:
+                            setattr(tgt, k, _jval(v, objs))
                 else:
                     setattr(objs[st['o']], st['p'], f"n{st['v']}" if st['p'] == 'name' else _jval(st['v'], objs))
             except Boom:
@@ -159,9 +178,23 @@ OBJP = ['a', 'b']
 INTP = ['x', 'y']
 
 
-def _classes(methods):
-    return [{'objParams': OBJP, 'intParams': INTP, 'methods': []},
-            {'objParams': OBJP, 'intParams': INTP, 'methods': methods}]
+def _classes(methods, nbase=0, falsy=(False, False)):
+    out = [{'objParams': OBJP, 'intParams': INTP, 'methods': []},
+           {'objParams': OBJP, 'intParams': INTP, 'methods': methods}]
+    if nbase:
+        out[1]['nbase'] = min(nbase, len(methods))
+    for c, f in zip(out, falsy):
+        if f:
+            c['falsy'] = True
+    return out
+
+
+def _with_methods(case, ms):
+    """the case with class 1's methods replaced (flags kept; `nbase` clipped)"""
+    c1 = dict(case['classes'][1], methods=ms)
+    if 'nbase' in c1:
+        c1['nbase'] = min(c1['nbase'], len(ms))
+    return dict(case, classes=[case['classes'][0], c1])
 
 
 def _new(cls, name=0, a=None, b=None, x=0, y=0):
@@ -175,6 +208,11 @@ def _set(o, p, v):
 
 def _upd(o, via='update', **kv):
     return {'op': 'update', 'o': o, 'kvs': [[k, v] for k, v in kv.items()], 'via': via}
+
+
+def _upd2(o, *kvs):
+    """a batch block whose assignments may repeat a key"""
+    return {'op': 'update', 'o': o, 'kvs': [list(kv) for kv in kvs], 'via': 'batch'}
 
 
 def _ref(o):
@@ -319,7 +357,17 @@ def _gen_case(rng):
                 else:
                     v = sh.vals[holder][k] if rng.random() < 0.25 else rng.choice([0, 1, 2, 3])
                 kvs.append([k, v])
-            st = {'op': 'update', 'o': holder, 'kvs': kvs, 'via': rng.choice(['update', 'update', 'batch'])}
+            via = rng.choice(['update', 'update', 'batch', 'batch', 'discard'])
+            objk = [k for k in keys if k in OBJP]
+            if via == 'batch' and objk and rng.random() < 0.4:
+                # the same sub-object parameter assigned a second time inside the block
+                st2 = _new(0, name=rng.choice([0, 0, 1]), x=rng.choice([0, 1, 2]), y=rng.choice([0, 1, 2]))
+                steps.append(st2)
+                kvs.append([rng.choice(objk), _ref(sh.new(st2))])
+            if via == 'discard':
+                st = {'op': 'discard', 'o': holder, 'kvs': kvs[:rng.randint(1, len(kvs))]}
+            else:
+                st = {'op': 'update', 'o': holder, 'kvs': kvs, 'via': via}
             steps.append(st)
             _apply(sh, st)
         elif r < 0.55:
@@ -343,7 +391,11 @@ def _gen_case(rng):
             v = sh.vals[o][p] if rng.random() < 0.2 else rng.choice([0, 1, 2, 3])
             steps.append(_set(o, p, v))
             sh.set(o, p, v)
-    return {'classes': _classes(methods), 'steps': steps}
+    # where the methods are declared (own class / all inherited / the first one inherited) and whether the
+    # sub-objects / the owner are falsy: neither may make a difference
+    nbase = rng.choice([0, 0, 0, len(methods), 1])
+    falsy = (rng.random() < 0.2, rng.random() < 0.15)
+    return {'classes': _classes(methods, nbase, falsy), 'steps': steps}
 
 
 def _directed():
@@ -401,6 +453,30 @@ def _directed():
         yield {'classes': _classes([_m('m0', *specs)]), 'steps': [
             _new(0, x=1), _new(0, b=0), _new(1, a=1), _new(0, x=1), _set(1, 'b', _ref(3)), _set(3, 'x', 2),
             _new(0, x=5), _set(1, 'b', _ref(4)), _set(1, 'b', None), _set(0, 'x', 9), _new(0, x=5), _set(1, 'b', _ref(5))]}
+    # the dependent method is only inherited by the owner's class / declared partly on a base class: replacing
+    # the root sub-object and nested ones re-resolves exactly as on the declaring class
+    for nbase in (1, 2):
+        yield {'classes': _classes([_m('m0', 'a.x'), _m('m1', 'a.b.y', 'b.x')], nbase=nbase), 'steps': [
+            _new(0, x=1), _new(0, y=1), _new(0, x=1, b=1), _new(1, a=2, b=0), _new(0, x=2), _set(3, 'a', _ref(4)),
+            _set(4, 'x', 3), _set(2, 'x', 9), _new(0, x=3), _set(3, 'a', _ref(5)), _set(5, 'x', 4), _set(4, 'x', 0),
+            _new(0, y=5), _set(5, 'b', _ref(6)), _set(6, 'y', 6), _new(0, x=1), _set(3, 'b', _ref(7)), _set(7, 'x', 2),
+            _set(0, 'x', 5)]}
+    # falsy objects (empty containers) on the path, as owner and as holders of intermediate links
+    for falsy in ((True, False), (False, True), (True, True)):
+        yield {'classes': _classes([_m('m0', 'a.b.x')], falsy=falsy), 'steps': [
+            _new(0, x=1), _new(0, b=0), _new(1, a=1), _set(0, 'x', 2), _new(0, x=2), _set(1, 'b', _ref(3)),
+            _set(3, 'x', 3), _set(0, 'x', 50), _new(0, x=7), _set(1, 'b', _ref(4)), _set(4, 'x', 8),
+            _new(0, x=8), _new(0, b=5), _set(2, 'a', _ref(6)), _set(5, 'x', 9), _set(4, 'x', 1)]}
+    # one root assigned twice inside one batch block (clean-tree observations: called twice / a real change skipped)
+    yield {'classes': _classes([_m('m0', 'a.x')]), 'steps': [
+        _new(0, x=0), _new(1, a=0), _new(0, x=1), _new(0, x=2), _upd2(1, ['a', _ref(2)], ['a', _ref(3)]), _set(3, 'x', 5)]}
+    yield {'classes': _classes([_m('m0', 'a.x')]), 'steps': [
+        _new(0, x=1), _new(1, a=0), _new(0, x=0), _new(0, x=0), _upd2(1, ['a', _ref(2)], ['a', _ref(3)]), _set(3, 'x', 5)]}
+    # discard_events: on the owner (own dependencies are re-resolved by the setter), on an intermediate object
+    yield {'classes': _classes([_m('m0', 'a.b.x')]), 'steps': [
+        _new(0, x=0), _new(0, b=0), _new(1, a=1), _new(0, x=0), _new(0, b=3),
+        {'op': 'discard', 'o': 2, 'kvs': [['a', _ref(4)]]}, _set(3, 'x', 1), _set(0, 'x', 7),
+        _new(0, x=1), {'op': 'discard', 'o': 4, 'kvs': [['b', _ref(5)]]}, _set(5, 'x', 2), _set(3, 'x', 9)]}
     # rejected values end the history
     yield {'classes': _classes([_m('m0', 'a.x')]), 'steps': [_new(0), _new(1, a=0), _set(1, 'a', 3)]}
     yield {'classes': _classes([_m('m0', 'a.x')]), 'steps': [_new(0), _new(1, a=0), _set(0, 'name', 1)]}
@@ -422,7 +498,7 @@ def cases(rng, tier, worker, nworkers):
 def _apply(sh, st):
     if st['op'] == 'new':
         return sh.new(st)
-    if st['op'] == 'update':
+    if st['op'] in ('update', 'discard'):
         for k, v in st['kvs']:
             sh.set(st['o'], k, v)
     else:
@@ -438,6 +514,10 @@ def _replay_shadow(case, upto):
 
 def tags(case, impl):
     t = [f'steps={min(len(case["steps"]) // 5 * 5, 25)}']
+    c1 = case['classes'][1]
+    t.append('decl:inherited' if c1.get('nbase') else 'decl:own')
+    if any(c.get('falsy') for c in case['classes']):
+        t.append('objects:falsy')
     sh = _Shadow()
     tops = []
     ok = [x for x in impl.get('steps', []) if not x.get('err')] if isinstance(impl, dict) else []
@@ -447,8 +527,11 @@ def tags(case, impl):
             if st['cls'] == 1:
                 tops.append(o)
             continue
-        if st['op'] == 'update':
-            t.append('step:update' if st.get('via') != 'batch' else 'step:batch')
+        if st['op'] in ('update', 'discard'):
+            t.append('step:discard' if st['op'] == 'discard' else 'step:update' if st.get('via') != 'batch' else 'step:batch')
+            ks = [k for k, _ in st['kvs']]
+            if len(set(ks)) < len(ks):
+                t.append('step:batch-repeated-key')
             _apply(sh, st)
             continue
         reach = [x for tp in tops for x in sh.reachable(tp)]
@@ -480,23 +563,28 @@ def shrink(case):
     steps = case['steps']
     # dropping a step must keep object numbering: only `set` steps and trailing steps are dropped
     for i in range(len(steps) - 1, -1, -1):
-        if steps[i]['op'] == 'update' and len(steps[i]['kvs']) > 1:
+        if steps[i]['op'] in ('update', 'discard') and len(steps[i]['kvs']) > 1:
             for j in range(len(steps[i]['kvs'])):
                 kv = steps[i]['kvs']
                 yield dict(case, steps=steps[:i] + [dict(steps[i], kvs=kv[:j] + kv[j + 1:])] + steps[i + 1:])
-        if steps[i]['op'] in ('set', 'update'):
+        if steps[i]['op'] in ('set', 'update', 'discard'):
             yield dict(case, steps=steps[:i] + steps[i + 1:])
     if steps:
         yield dict(case, steps=steps[:-1])
     ms = case['classes'][1]['methods']
     if len(ms) > 1:
         for j in range(len(ms)):
-            yield dict(case, classes=_classes(ms[:j] + ms[j + 1:]))
+            yield _with_methods(case, ms[:j] + ms[j + 1:])
     for j, m in enumerate(ms):
         if len(m['specs']) > 1:
             for s in range(len(m['specs'])):
                 m2 = dict(m, specs=m['specs'][:s] + m['specs'][s + 1:])
-                yield dict(case, classes=_classes(ms[:j] + [m2] + ms[j + 1:]))
+                yield _with_methods(case, ms[:j] + [m2] + ms[j + 1:])
+    for k, c in enumerate(case['classes']):
+        for flag in ('nbase', 'falsy'):
+            if c.get(flag):
+                c2 = {q: v for q, v in c.items() if q != flag}
+                yield dict(case, classes=[c2 if i == k else x for i, x in enumerate(case['classes'])])
 
 
 _WHY = re.compile(r'(fires|detached|leftover|missing) step=(\d+) owner=(\d+) method=(\S+)')
@@ -543,11 +631,35 @@ def classify(case, impl, fail):
     # queues its own — the flush runs both, the method is called twice
     st = case['steps'][step]
     mc = re.search(r'expected(?:=|<=)1 got=(\d+)', why)
-    if kind == 'fires' and st['op'] == 'update' and st['o'] == owner and mc and int(mc.group(1)) >= 2:
+    if kind == 'fires' and st['op'] == 'update' and mc:
         roots = {sp['path'][0] for sp in meth['specs']}
         hit = [k for k, _ in st['kvs'] if k in roots]
-        if len(hit) >= 2 and int(mc.group(1)) <= len(hit):
+        # (the same root assigned twice in a batch block counts as two)
+        if st['o'] == owner and 'expected=0' not in why and len(hit) >= 2 and 2 <= int(mc.group(1)) <= len(hit):
             return 'batch-two-roots-stale-queued-watcher'
+    # a sub-object parameter on a declared path assigned more than once in ONE batch block: the flush hands every
+    # watcher the LAST event of the parameter, whose `old` is the intermediate value — _skip_event compares the
+    # intermediate with the final sub-object instead of the one attached before the batch: a real change is
+    # skipped, or a call is made although the reached value is what it was
+    if kind == 'fires' and st['op'] == 'update' and st.get('via') == 'batch':
+        ks = [k for k, _ in st['kvs']]
+        rep = {k for k in ks if ks.count(k) > 1}
+        sh = _replay_shadow(case, step)
+        for spec in meth['specs']:
+            ch = _chain(sh, owner, spec)
+            for j, o in enumerate(ch):
+                if o == st['o'] and j < len(spec['path']) and spec['path'][j] in rep:
+                    return 'batch-repeated-key-compares-intermediate-object'
+    # `with discard_events(o): o.k = …` on an object BELOW the owner, on a declared path: the owner's watcher on
+    # (o, k) carries the rebinding callback; it is dropped from the queue with the event, so the owner stays
+    # bound to the detached object
+    if kind in ('leftover', 'missing') and st['op'] == 'discard' and st['o'] != owner:
+        sh = _replay_shadow(case, step)
+        for spec in meth['specs']:
+            ch = _chain(sh, owner, spec)
+            for j, o in enumerate(ch):
+                if j > 0 and o == st['o'] and j < len(spec['path']) and any(k == spec['path'][j] for k, _ in st['kvs']):
+                    return 'discard-events-on-intermediate-loses-rebinding'
     # the graph before and after the failing step
     for upto in (step, step + 1):
         sh = _replay_shadow(case, upto)
